@@ -1,6 +1,6 @@
 (* The statements behind props/C04.v and props/C06.v, derived from the step-level facts of
    OwnInv_proofs.v. *)
-From Verif Require Import Gen_DoKill Common Ownership Ownership_proofs Teardown Teardown_proofs OwnSpec OwnInv_proofs.
+From Verif Require Import Gen_DoKill Gen_Claimable Common Ownership Ownership_proofs Teardown Teardown_proofs OwnSpec OwnInv_proofs.
 Open Scope N_scope.
 
 Lemma option_eq_dec_N (a b : option N) : {a = b} + {a <> b}.
@@ -94,6 +94,57 @@ Proof.
   apply bound_tids_fst in Bx. apply bound_tids_fst in By. congruence.
 Qed.
 
+(* ================================================================== C04: the claim path (reuseUnlockedTasks) *)
+(* the source fact (gen/Gen_Claimable.v): IsClaimable holds only for a task that is not locked, ACTIVE and
+   in STANDBY *)
+Lemma claimable_table_sound :
+  forallb (fun p => negb (snd p) ||
+                    (negb (fst (fst (fst p))) && snd (fst (fst p)) && N.eqb (snd (fst p)) 0)) claimable_table = true.
+Proof. vm_compute. reflexivity. Qed.
+
+Lemma claimable_unlocked t :
+  claimable t = true -> is_locked t = false /\ t_active t = true /\ t_state t = TS_STANDBY.
+Proof.
+  unfold claimable. intro H. apply existsb_exists in H. destruct H as [p [Hp Hc]].
+  pose proof claimable_table_sound as S. rewrite forallb_forall in S. specialize (S p Hp).
+  apply andb_true_iff in Hc. destruct Hc as [Hc Hres]. apply andb_true_iff in Hc. destruct Hc as [Hc Hst].
+  apply andb_true_iff in Hc. destruct Hc as [Hl Ha].
+  rewrite Hres in S. cbn [negb orb] in S. apply andb_true_iff in S. destruct S as [S S3].
+  apply andb_true_iff in S. destruct S as [S1 S2].
+  apply Bool.eqb_prop in Hl. apply Bool.eqb_prop in Ha. apply N.eqb_eq in Hst. apply N.eqb_eq in S3.
+  apply negb_true_iff in S1. repeat split; try congruence.
+  destruct (N.leb (t_state t) 3) eqn:E3; [unfold TS_STANDBY; congruence|]. rewrite Hst in S3. discriminate.
+Qed.
+
+Lemma first_claimable_spec ch r id :
+  first_claimable ch r = Some id -> exists t, In t r /\ t_id t = id /\ claimable t = true /\ t_ch t = ch.
+Proof.
+  induction r as [|a r IH]; cbn [first_claimable]; [discriminate|].
+  destruct (claimable a && N.eqb (t_ch a) ch) eqn:E.
+  - intro H. injection H as <-. apply andb_true_iff in E. destruct E as [E1 E2]. apply N.eqb_eq in E2.
+    exists a. repeat split; auto. left. reflexivity.
+  - intro H. destruct (IH H) as [t [H1 H2]]. exists t. split; [right; exact H1|exact H2].
+Qed.
+
+(* a creation claims only tasks that no environment holds: not locked, ACTIVE, in STANDBY, of the wanted
+   class on the wanted host *)
+Lemma claims_unowned c r j id :
+  In (j, id) (claims c r) ->
+  exists t, In t r /\ t_id t = id /\ is_locked t = false /\ t_active t = true /\ t_state t = TS_STANDBY /\
+            exists ro, In (j, ro) (iroles (c_roles c)) /\ t_ch t = r_ch ro /\ r_ch ro <> 0.
+Proof.
+  unfold claims. intro H. apply in_flat_map in H. destruct H as [ir [Hir H]].
+  destruct (r_kind (snd ir)); try contradiction.
+  destruct (N.eqb (r_ch (snd ir)) 0) eqn:E0; [contradiction|].
+  destruct (first_claimable (r_ch (snd ir)) r) as [id'|] eqn:Ef; [|contradiction].
+  destruct H as [H|[]]. injection H as <- <-.
+  destruct (first_claimable_spec _ _ _ Ef) as [t [H1 [H2 [H3 H4]]]].
+  destruct (claimable_unlocked t H3) as [L [A S]].
+  exists t. repeat split; auto. exists (snd ir). repeat split; auto.
+  - destruct ir; exact Hir.
+  - apply N.eqb_neq, E0.
+Qed.
+
 (* ================================================================== C04: detectors *)
 Lemma memN_In k l : memN k l = true <-> In k l.
 Proof.
@@ -177,6 +228,23 @@ Proof.
   eexists. split; [|split; [|split; [constructor|exact Hfree]]]; reflexivity.
 Qed.
 
+Lemma finish_envs e c s s' u ad :
+  finish e c s = (s', u) -> assocN e (s_snaps s) = Some ad ->
+  s_snaps s' = remove_snap e (s_snaps s) /\
+  (lmoves e (s_envs s) (s_envs s') \/
+   exists x, e_id x = e /\ e_dets x = c_dets c /\ lmoves e (s_envs s ++ [x]) (s_envs s') /\
+             forall d, In d (c_dets c) -> ~ In d ad).
+Proof.
+  unfold finish. intros H Ea. rewrite Ea in H.
+  set (cl := claims c (s_roster s)) in *.
+  destruct (negb (c_reuse c) || negb (N.eqb (c_fail c) 0 || N.eqb (c_fail c) 5) ||
+            existsb (fun d => memN d ad) (c_dets c) || match cl with [] => true | _ => false end).
+  { eapply finish0_envs; eauto. }
+  destruct (finish0 e (without_claimed cl c) s) as [s2 u2] eqn:E0.
+  destruct (kill_tasks (map snd cl) (s_roster s2)) as [r3 k3]. injection H as <- _.
+  apply (finish0_envs e (without_claimed cl c) s s2 u2 ad E0 Ea).
+Qed.
+
 Record sinv (s : st) : Prop := mkSinv {
   sinv_inv : inv s;
   sinv_snaps : s_snaps s = [];
@@ -197,7 +265,7 @@ Proof.
     + destruct (N.eqb (c_fail c) 1).
       { unfold snap in E. injection E as <- <-. exact S. }
       unfold snap in E. destruct (cleanup (s_roster s)) as [r' k].
-      cbv iota beta in E. set (s1 := mkSt (s_envs s) r' _) in E. destruct (finish0 e c s1) as [s2 o2] eqn:Ef. injection E as <- <-.
+      cbv iota beta in E. set (s1 := mkSt (s_envs s) r' _) in E. destruct (finish e c s1) as [s2 o2] eqn:Ef. injection E as <- <-.
       assert (Ea : assocN e (s_snaps s1) = Some (active_dets (s_envs s))).
       { subst s1. cbn [s_snaps assocN]. rewrite N.eqb_refl. reflexivity. }
       destruct (finish_envs e c s1 s2 o2 _ Ef Ea) as [Hs _]. rewrite Hs. subst s1. cbn [s_snaps].
@@ -216,7 +284,7 @@ Proof.
       destruct (N.eqb (c_fail c) 1).
       { unfold snap in E. injection E as <- <-. exact D. }
       unfold snap in E. destruct (cleanup (s_roster s)) as [r' k].
-      cbv iota beta in E. set (s1 := mkSt (s_envs s) r' _) in E. destruct (finish0 e c s1) as [s2 o2] eqn:Ef. injection E as <- <-.
+      cbv iota beta in E. set (s1 := mkSt (s_envs s) r' _) in E. destruct (finish e c s1) as [s2 o2] eqn:Ef. injection E as <- <-.
       assert (Ea : assocN e (s_snaps s1) = Some (active_dets (s_envs s))).
       { subst s1. cbn [s_snaps assocN]. rewrite N.eqb_refl. reflexivity. }
       destruct (finish_envs e c s1 s2 o2 _ Ef Ea) as [_ [Hl|[x [X1 [X2 [Hl Hfree]]]]]].
@@ -270,12 +338,14 @@ Proof.
   { cbn [step] in E. destruct (N.eqb (c_fail c) 1).
     { unfold snap in E. injection E as <- <-. auto. }
     unfold snap in E. destruct (cleanup (s_roster s)) as [r' k].
-    cbv iota beta in E. unfold finish0 in E. cbn [s_snaps assocN] in E. rewrite N.eqb_refl in E.
+    assert (Hex : existsb (fun d0 => memN d0 (active_dets (s_envs s))) (c_dets c) = true).
+    { apply existsb_exists. exists d. split; [exact Hd|apply memN_In, Ha]. }
+    cbv iota beta in E. unfold finish in E. cbn [s_snaps assocN] in E. rewrite N.eqb_refl in E.
+    rewrite Hex in E. rewrite orb_true_r in E. cbn [orb] in E.
+    unfold finish0 in E. cbn [s_snaps assocN] in E. rewrite N.eqb_refl in E.
     destruct (N.leb 1 (c_fail c) && N.leb (c_fail c) 3).
     { injection E as <- <-. auto. }
-    replace (existsb (fun d0 => memN d0 (active_dets (s_envs s))) (c_dets c)) with true in E.
-    { injection E as <- <-. auto. }
-    symmetry. apply existsb_exists. exists d. split; [exact Hd|apply memN_In, Ha]. }
+    rewrite Hex in E. injection E as <- <-. auto. }
   destruct Hrest as [H1 [H2 [H3 H4]]]. repeat split; auto.
   - intros t Hin Hl. apply is_locked_true in Hl. destruct Hl as [[e' Hl] Hok].
     eapply (frame_tasks s s' _ u R' W eq_refl E); eauto. cbn [op_env]. intro X. injection X as ->.
@@ -290,7 +360,7 @@ Proof.
 Qed.
 
 (* the race: both creations take their snapshot before either is listed *)
-Definition race_spec : cspec := mkSpec [0] 0 [mkRole RPlain true 0 false] [].
+Definition race_spec : cspec := mkSpec [0] 0 [mkRole RPlain true 0 false 0] [] false.
 Definition race_ops : list op := [OSnap 0 false; OCreate 1 race_spec; OFinish 0 race_spec].
 
 Lemma detector_race : valid_hist st0 race_ops = true /\
@@ -922,6 +992,35 @@ Proof.
   intros H Hrc. injection H as <- <-. discriminate.
 Qed.
 
+(* the claim path around the creation: what it adds is a KILL for the claimed tasks *)
+Lemma finish_nothing e c s s' u ad :
+  inv s -> assocN e (s_snaps s) = Some ad -> c_fail c <> 6 ->
+  finish e c s = (s', u) -> o_rc u = 1 ->
+  (nothing_left e s' /\ launched_handled s' u) /\ o_pend u = 0.
+Proof.
+  intros I Ea H6. unfold finish. rewrite Ea.
+  set (cl := claims c (s_roster s)).
+  destruct (negb (c_reuse c) || negb (N.eqb (c_fail c) 0 || N.eqb (c_fail c) 5) ||
+            existsb (fun d => memN d ad) (c_dets c) || match cl with [] => true | _ => false end).
+  { eapply finish0_nothing; eauto. }
+  destruct (finish0 e (without_claimed cl c) s) as [s2 u2] eqn:E0.
+  destruct (kill_tasks (map snd cl) (s_roster s2)) as [r3 k3] eqn:Ek.
+  intros H Hrc. injection H as <- <-. cbn [o_rc o_pend o_launch o_kills] in *.
+  destruct (finish0_nothing e (without_claimed cl c) s s2 u2 ad I Ea) as [[[A1 [A2 A3]] B] P0]; auto.
+  { cbn. discriminate. }
+  split; [|exact P0]. split.
+  - repeat split; unfold with_roster; cbn [s_envs s_roster]; auto.
+    intros t Ht. assert (Hs : In t (fst (kill_tasks (map snd cl) (s_roster s2)))) by (rewrite Ek; exact Ht).
+    apply kill_from in Hs. destruct Hs as [t2 [H2 [_ [Eo _]]]]. pose proof (A2 t2 H2) as X.
+    unfold owner_is in *. rewrite <- Eo. exact X.
+  - intros id Hl. destruct (B id Hl) as [X|[t [Ht [Eid Eo]]]].
+    + left. apply in_or_app. left. exact X.
+    + destruct (kill_or_stay (map snd cl) (s_roster s2) t Ht) as [K|[t' [K1 [K2 K3]]]].
+      * left. apply in_or_app. right. rewrite Ek in K. cbn [snd] in K. congruence.
+      * right. exists t'. rewrite Ek in K1. cbn [fst] in K1. unfold with_roster. cbn [s_roster].
+        split; [exact K1|]. split; congruence.
+Qed.
+
 Lemma create_nothing_behind s e c s' u :
   reachable s -> wf_op s (OCreate e c) = true -> c_fail c <> 6 ->
   step s (OCreate e c) = (s', u) -> o_rc u = 1 ->
@@ -936,7 +1035,7 @@ Proof.
     - intros t Ht. destruct (owner_is e t) eqn:Eo; [|reflexivity]. apply owner_is_true in Eo.
       exfalso. apply (U2 t Ht). eapply inv_owner; eauto. }
   destruct (snap e false s) as [s1 o1] eqn:Es.
-  destruct (finish0 e c s1) as [s2 o2] eqn:Ef. injection E as <- <-.
+  destruct (finish e c s1) as [s2 o2] eqn:Ef. injection E as <- <-.
   destruct (snap_spec e s s1 o1 I W Es) as [I1 [Hc [Hk [Hr He]]]].
   assert (Ea : assocN e (s_snaps s1) = Some (active_dets (s_envs s))).
   { unfold snap in Es. destruct (cleanup (s_roster s)). injection Es as <- _. cbn [s_snaps assocN].
@@ -962,7 +1061,7 @@ Qed.
 
 (* ---- partial deployment failure (c_fail = 6): the retried deployment *)
 Definition pd_spec : cspec :=
-  mkSpec [0] 6 [mkRole RPlain true 0 false; mkRole RPlain false 0 false] [].
+  mkSpec [0] 6 [mkRole RPlain true 0 false 0; mkRole RPlain false 0 false 0] [] false.
 
 (* the source facts (gen/Gen_AcqRoster.v): the tasks of every deployment attempt reach the roster *)
 Lemma roster_attempts_all : roster_attempts = [0; 1; 2].
@@ -1033,6 +1132,16 @@ Proof.
   destruct Hin as [t [Ht Eid]]. exists t. split; [apply Keep, Ht|]. split; [exact Eid|apply Hlast, Ht].
 Qed.
 
+Lemma finish_nothing6 e c s s' u ad :
+  inv s -> assocN e (s_snaps s) = Some ad -> c_fail c = 6 ->
+  finish e c s = (s', u) -> o_rc u = 1 ->
+  (nothing_left e s' /\ launched_handled s' u) /\ o_pend u = 0.
+Proof.
+  intros I Ea H6. unfold finish. rewrite Ea, H6.
+  replace (negb (N.eqb 6 0 || N.eqb 6 5)) with true by reflexivity. rewrite orb_true_r. cbn [orb].
+  intros H Hrc. eapply finish0_nothing6; eauto.
+Qed.
+
 Lemma create_nothing_full s e c s' u :
   reachable s -> wf_op s (OCreate e c) = true ->
   step s (OCreate e c) = (s', u) -> o_rc u = 1 ->
@@ -1044,7 +1153,7 @@ Proof.
   cbn [wf_op] in W. apply andb_true_iff in W. destruct W as [W _]. apply negb_true_iff in W.
   cbn [step] in E. rewrite H6 in E. replace (N.eqb 6 1) with false in E by reflexivity.
   destruct (snap e false s) as [s1 o1] eqn:Es.
-  destruct (finish0 e c s1) as [s2 o2] eqn:Ef. injection E as <- <-.
+  destruct (finish e c s1) as [s2 o2] eqn:Ef. injection E as <- <-.
   destruct (snap_spec e s s1 o1 I W Es) as [I1 _].
   assert (Ea : assocN e (s_snaps s1) = Some (active_dets (s_envs s))).
   { unfold snap in Es. destruct (cleanup (s_roster s)). injection Es as <- _. cbn [s_snaps assocN].
@@ -1116,8 +1225,8 @@ Proof. cbn [step]. rewrite recon_tasks_id. destruct s; reflexivity. Qed.
 
 (* ---------------- the witnesses of the former refutations, now regression examples *)
 Definition mw_spec : cspec :=
-  mkSpec [0] 0 [mkRole RPlain true 0 false; mkRole (RHookTask false (-5)%Z) false 0 false;
-                mkRole (RHookTask false 5%Z) false 0 false] [].
+  mkSpec [0] 0 [mkRole RPlain true 0 false 0; mkRole (RHookTask false (-5)%Z) false 0 false 0;
+                mkRole (RHookTask false 5%Z) false 0 false 0] [] false.
 Definition mw_ops : list op := [OCreate 0 mw_spec].
 
 Lemma multiweight_released :
@@ -1130,7 +1239,7 @@ Lemma multiweight_released :
 Proof. vm_compute. repeat split; reflexivity. Qed.
 
 Definition stg_spec : cspec :=
-  mkSpec [2] 0 [mkRole RPlain true 0 false; mkRole RPlain true 1 false; mkRole RPlain false 2 false] [].
+  mkSpec [2] 0 [mkRole RPlain true 0 false 0; mkRole RPlain true 1 false 0; mkRole RPlain false 2 false 0] [] false.
 
 Lemma staging_killed :
   wf_op st0 (OCreate 0 stg_spec) = true /\
@@ -1142,7 +1251,7 @@ Proof. vm_compute. repeat split; reflexivity. Qed.
 (* an executor failure before a forced keep-tasks destroy: the failed task is not locked any more but
    still has its parent; the teardown clears it *)
 Definition xf_spec : cspec :=
-  mkSpec [0] 0 [mkRole RPlain true 0 false; mkRole RPlain false 0 false] [].
+  mkSpec [0] 0 [mkRole RPlain true 0 false 0; mkRole RPlain false 0 false 0] [] false.
 
 Lemma failed_executor_released :
   let ops := [OCreate 0 xf_spec; OFail [(0, 1)]] in
